@@ -26,13 +26,13 @@ PROFILES = {
         "features": FLOW_INLINE | {"run.ins", "run.del", "run.comment-ref", "run.note-ref", "run.field", "para.heading", "list.flat", "list.nested", "table.simple",
                                    "table.multi-para-cell", "table.nested", "table.empty-cell", "table.header-rows", "container.section", "container.textbox",
                                    "excluded.header-footer", "excluded.comment"},
-        "table_text_in_full_text": True, "unit_kind": "flow", "max_units": 1, "opts": {"no_meta": [False, False, True]},
+        "table_text_in_full_text": True, "unit_kind": "flow", "max_units": 1, "opts": {"no_meta": [False, False, True], "run_space": [False, False, True]},
     },
     "odp": {
         "ext": "odp", "render": lambda doc, **kw: odf.render_odp(doc, **kw), "selfcheck": odf.wellformed,
         "features": FLOW_INLINE | {"para.heading", "list.flat", "list.nested", "table.simple", "table.multi-para-cell", "table.empty-cell", "table.header-rows", "container.group",
                                    "container.custom-shape", "unit.multi", "unit.empty", "excluded.speaker-notes", "excluded.header-footer", "excluded.comment"},
-        "table_text_in_full_text": False, "unit_kind": "slide", "max_units": 4, "opts": {"subtitle_styles": [False, True], "no_meta": [False, False, True]},
+        "table_text_in_full_text": False, "unit_kind": "slide", "max_units": 4, "opts": {"subtitle_styles": [False, True], "no_meta": [False, False, True], "run_space": [False, False, True]},
     },
     "odg": {
         "ext": "odg", "render": lambda doc, **kw: odf.render_odg(doc, **kw), "selfcheck": odf.wellformed,
